@@ -79,6 +79,20 @@ class C18(PropertyCheck):
             sp["name"] = w
             sp["strs"] = [(w if v is not None else None) for v in sp["strs"]]
             add(3, [sp], "codec-edge")
+        # different strings with equal FxHash (seed C18-10): both members in one record, in two records of one file, with a common
+        # suffix, as names and as string fields
+        for k, (x, y) in enumerate(R.FX_PAIRS):
+            for suf in (b"", b"_cl0n"):
+                a, b = x + suf, y + suf
+                sp = make_spec(rng, [], name=True)
+                sp["name"] = a
+                sp["strs"][k % R.N_STRS] = b
+                sp["strs"][32] = a
+                add(1, [sp], "fx-collision")
+                s1 = make_spec(rng, [], name=True); s1["name"] = b"n1"; s1["strs"][(k + 3) % 31] = a
+                s2 = make_spec(rng, [], name=True); s2["name"] = b; s2["strs"][(k + 3) % 31] = b
+                s3 = make_spec(rng, [], name=True); s3["name"] = a
+                add(1, [s1, s2, s3], "fx-collision")
         add(0, [], "empty-file")
         add(0xFFFFFFFF, [], "empty-file")
         n_rand = 500 if tier == "quick" else 30000
